@@ -9,6 +9,18 @@ _PENDING = "no registered check yet at this commit (model and correspondence und
 NOT_APPLICABLE = {f"C{i:02d}": _PENDING for i in range(1, 21)}
 
 META = {
+    "C16": {
+        "text": ("Lean theorem for every codec table passing the decidable check TableOK and every record: decoding the encoding "
+                 "returns every field, and re-encoding is a fixpoint. The tables of FieldMapping, DocumentMapping and "
+                 "IndexMappingImpl (struct tags with omitempty, the case arms of the hand-written UnmarshalJSON, decoder presets) "
+                 "are regenerated from /repo by a go/ast extractor on every run and TableOK is decided on them by the kernel. "
+                 "Random mapping trees are additionally round-tripped through the real code: validation, JSON fixpoint, MapDocument "
+                 "equality incl. analysed terms, also through create/close/Open."),
+        "design_ref": "DESIGN.md section 4, C16",
+        "note": ("trusted: Lean kernel, the extractor (a wrong extraction would disagree with the differential runs), encoding/json, "
+                 "Go harness. Values are abstract in the model (0 = empty); nested levels are each an instance of the same table theorem."),
+        "technique": "Lean 4 proof over generated codec tables (translator) + differential round-trip correspondence",
+    },
     "C13": {
         "text": ("Lean theorems over the persisted epoch list (newest first, each epoch with the content it recorded): Rollback to a "
                  "listed epoch followed by Open loads exactly the content recorded with that epoch, nothing newer survives, nothing "
